@@ -5,6 +5,9 @@ refresh benign/*/meta.json (`verified.alarms`) and benign/SUMMARY.md.  Every ala
 import glob, json, os, subprocess, sys, tempfile, shutil, re
 from concurrent.futures import ThreadPoolExecutor
 args = sys.argv[1:]
+CORPUS = "benign"
+if "--corpus" in args:
+    i = args.index("--corpus"); CORPUS = args[i + 1]; del args[i:i + 2]
 jobs = 5
 if args and args[0] == "-j":
     jobs = int(args[1]); args = args[2:]
@@ -38,19 +41,19 @@ def one(d):
     return name, alarms
 
 
-dirs = [d for d in sorted(glob.glob("/verif/benign/C*-*")) if not only or any(os.path.basename(d).startswith(o) for o in only)]
+dirs = [d for d in sorted(glob.glob("/verif/%s/C*-*" % CORPUS)) if not only or any(os.path.basename(d).startswith(o) for o in only)]
 with ThreadPoolExecutor(jobs) as ex:
     for name, alarms in ex.map(one, dirs):
-        mp = os.path.join("/verif/benign", name, "meta.json")
+        mp = os.path.join("/verif", CORPUS, name, "meta.json")
         meta = json.load(open(mp))
         meta.setdefault("verified", {})["alarms"] = alarms
         json.dump(meta, open(mp, "w"), indent=1, ensure_ascii=False)
         print(name, "clean" if not alarms else "ALARMS " + json.dumps({k: [x[:160] for x in v[:3]] for k, v in alarms.items()})[:900], flush=True)
 rows = []
-for d in sorted(glob.glob("/verif/benign/C*-*")):
+for d in sorted(glob.glob("/verif/%s/C*-*" % CORPUS)):
     meta = json.load(open(os.path.join(d, "meta.json")))
     rows.append((os.path.basename(d), meta.get("summary", "")[:200].replace("|", "/").replace("\n", " "), meta.get("verified", {}).get("alarms", {})))
-with open("/verif/benign/SUMMARY.md", "w") as fh:
+with open("/verif/%s/SUMMARY.md" % CORPUS, "w") as fh:
     clean = sum(1 for r in rows if not r[2])
     fh.write("%d of %d behaviour-preserving refactorings raise no alarm.\n\n| refactoring | change | alarms (false) |\n|---|---|---|\n" % (clean, len(rows)))
     for name, summ, alarms in rows:
